@@ -14,3 +14,6 @@ class ProtocolEnumMeta(EnumMeta):
             unrecognized._name_ = f"Unrecognized({int(value)})"
             unrecognized._value_ = value
             return unrecognized
+
+
+__all__ = ['ProtocolEnumMeta']
